@@ -130,6 +130,10 @@ def spec_engine(sidecar, fd, qual, registry):
         eng.spec_funcs[n] = FnV('specdef', n, f)
     for c in sidecar.contracts:
         eng.spec_funcs.setdefault(c.fd.name, FnV('repo', c.target))
+    for n, v in sidecar.assigns.items():
+        if isinstance(v, ast.Call) and isinstance(v.func, ast.Name) and v.func.id == 'uninterpreted':
+            name, arg_kinds, res_kind = [ast.literal_eval(a) for a in v.args]
+            eng.spec_funcs[n] = FnV('uf', name, calls.uninterpreted(name, arg_kinds, res_kind))
     return eng
 
 
@@ -151,6 +155,8 @@ def eval_clauses(c, env, st, registry, phase):
     out = []
     auto = {}
     for cl in eng.clauses:
+        if cl['kind'] == 'returns':
+            cl['heap'] = st3.heap
         k = cl['kind']
         if cl.get('label') is None and k in ('requires', 'ensures'):
             auto[k] = auto.get(k, 0) + 1
@@ -193,7 +199,16 @@ def apply_contract(eng, c, args, kwargs, st):
         st.assume(not_(cl['cond']))
     if not eng.feasible(st):
         return
-    res = fresh_result(c, st)
+    ret = [cl for cl in pre if cl['kind'] == 'returns']
+    if ret:
+        # definitional result: the contract says exactly what is returned (only allowed in assumed contracts)
+        if not c.assumed:
+            raise OutOfSubset('returns() in a non-assumed contract (%s)' % c.target)
+        res = ret[0]['value']
+        # objects created while evaluating the clause live in the clause state: re-create them here
+        res = rehome(res, ret[0]['heap'], st)
+    else:
+        res = fresh_result(c, st)
     env2 = dict(env)
     env2['result'] = res
     post = eval_clauses(c, env2, st, eng.registry, 'post')
@@ -201,6 +216,16 @@ def apply_contract(eng, c, args, kwargs, st):
         if cl['kind'] == 'ensures':
             st.assume(cl['cond'])
     yield res, st
+
+
+def rehome(v, heap, st):
+    if isinstance(v, Ref):
+        if v.oid not in st.heap:
+            st.heap[v.oid] = heap[v.oid]
+        return v
+    if isinstance(v, tuple):
+        return tuple(rehome(x, heap, st) for x in v)
+    return v
 
 
 def check_result_kind(kind, v, st):
@@ -278,6 +303,7 @@ def verify_function(c, registry, feas_timeout=1500):
                     eng.inline.add(a[len('mir_eval.'):] if a.startswith('mir_eval.') else a)
             elif cl['kind'] == 'invariant':
                 eng.loop_invariants.setdefault(cl['kwargs'].get('loop', 0), []).append(cl)
+        eng.inv_funcs = spec_engine(c.sidecar, c.fd, c.target, registry).spec_funcs
         raises = [cl for cl in pre if cl['kind'] == 'raises']
         # cover: the precondition is satisfiable (vacuity guard)
         ob = Obligation('%s#cover:pre' % c.target, 'cover', 'pre', list(st.pc), z3.BoolVal(False), c.props, fd.lineno,
